@@ -86,7 +86,13 @@ class CliFailures(Stream):
         elif k < 0.6:
             n = rng.choice(names)
             case["corrupt"] = [[n, v] for v in case["universe"][n]]
-        elif k < 0.72:
+        elif k < 0.68:
+            # an exact pin nobody offers, next to a bound it satisfies: unsatisfied - but not *impossible*
+            n = rng.choice(names)
+            v = rng.choice(GL.VERS)
+            pin = rng.choice([v + ".0.5", v + ".1", "1!" + v, v + ".post1"])
+            case["inputs"][0] += [rng.choice(SS.SPELL[n]) + "==" + pin, rng.choice(SS.SPELL[n]) + rng.choice([">" + v, ">=" + v, "!=0.0.1"])]
+        elif k < 0.78:
             # unusable arguments: the command line must answer with a diagnostic and exit status 1
             case["usage"] = rng.choice(["missing-find-links", "missing-source", "no-repository", "missing-input", "missing-constraints"])
         return case
@@ -219,6 +225,10 @@ class CliFailures(Stream):
                     fails.append(("C09/named-requirement-is-satisfiable/" + region, {"requirement": m.group(2), "satisfying": ok}))
                 if kind == "impossible":
                     grid = ["%d.%d" % (a, b) for a in range(0, 12) for b in (0, 1, 5, 9)] + ["0.0.1", "9.9", "1.5.1", "2.0.post1", "3.0.1"]
+                    # and the neighbourhood of every version the requirement itself names
+                    for sp in spec:
+                        base = sp.version[:-2] if sp.version.endswith(".*") else sp.version
+                        grid += [base, base + ".1", base + ".0.1", base + ".post1"]
                     could = [g for g in grid if spec.contains(g, prereleases=True)]
                     if could:
                         fails.append(("C09/called-impossible-but-a-version-could-satisfy/" + region, {"requirement": m.group(2), "for example": could[:3]}))
